@@ -507,9 +507,9 @@ GENERIC = {
         parts=[("recover", "base", 320, 4800, 20, SMALL, BIG)],
     ),
     "C09": dict(
-        rule="all constructors incl. a counting iterator; monitors: panics (catch_unwind), items <= n+1, actions <= n+1, read budget, CPU watchdog; inputs include 20k-100k character stress strings (one repeated character, only unlexable characters, long near-matches). Non-trivial = distinct (definition, input) pairs with n >= 1000, a rewind, or an error at the end.",
+        rule="all constructors incl. a counting iterator; monitors: panics (catch_unwind), items <= n+1, actions <= n+1, read budget, CPU watchdog; inputs include stress strings of 3k (quick) / 10k (thorough) characters, ten times that for the all-unlexable input (one repeated character, only unlexable characters, long near-matches). Non-trivial = distinct (definition, input) pairs with n >= 1000, a rewind, or an error at the end.",
         nt="nt_C09",
-        parts=[("progress", "base", 200, 2400, 20, merged(SMALL, VP_STRESS_N=20000, VP_CTORS=1), merged(BIG, VP_STRESS_N=100000, VP_CTORS=1)),
+        parts=[("progress", "base", 200, 2400, 20, merged(SMALL, VP_STRESS_N=3000, VP_CTORS=1), merged(BIG, VP_STRESS_N=10000, VP_CTORS=1)),
                ("mixed", "base", 120, 2400, 20, merged(SMALL, VP_CTORS=1), merged(BIG, VP_CTORS=1))],
     ),
     "C10": dict(
